@@ -105,6 +105,13 @@ Proof.
   rewrite <- Hl, takeN_app_exact, dropN_app_exact, Hl, (IH Ht). reflexivity.
 Qed.
 
+Lemma norm_bools_wf (l : items) : wf_items TBool l -> norm_bools l = l.
+Proof.
+  induction l as [|i t IH]; intro Hw; cbn [norm_bools]; [reflexivity|].
+  destruct Hw as [Hi Ht]. destruct i; cbn [wf_item] in Hi; try contradiction.
+  rewrite (IH Ht). destruct Hi as [-> | ->]; reflexivity.
+Qed.
+
 Lemma norm_items_leaf (ft : ftype) (l : items) : ft <> TMessage -> ft_flattenable ft = true -> wf_items ft l -> norm_items l = l.
 Proof.
   intros Hm Hf. induction l as [|i t IH]; intro Hw; cbn [norm_items]; [reflexivity|].
@@ -114,7 +121,7 @@ Qed.
 
 Lemma dec_lp_items_str (l : items) (fuel : nat) :
   wf_items TString l -> size_items TString l + 4 * items_len l < two32 -> (items_cnt l <= fuel)%nat ->
-  dec_lp_items (fun b => IStr (cstr b)) fuel (items_len l) (flat_items TString l) = Ok (l, []).
+  dec_lp_items mk_str fuel (items_len l) (flat_items TString l) = Ok (l, []).
 Proof.
   revert fuel; induction l as [|i t IH]; intros fuel Hw Hs Hfu.
   - destruct fuel; reflexivity.
@@ -129,13 +136,14 @@ Proof.
     destruct (str_flat_size bs <=? len ((bs ++ [x00]) ++ flat_items TString t)) eqn:Le.
     2:{ apply N.leb_gt in Le. rewrite len_app, <- L in Le. lia. }
     rewrite dropN_app_n, takeN_app_n by exact L.
-    rewrite N.pred_succ, IH; [|exact Ht|lia|lia]. cbn [bind fst snd].
-    rewrite <- (app_nil_r (bs ++ [x00])), <- app_assoc. cbn [app]. rewrite cstr_app by exact Hi. reflexivity.
+    unfold mk_str at 1. rewrite <- (app_nil_r (bs ++ [x00])), <- app_assoc. cbn [app].
+    rewrite upto_nul_app by exact Hi.
+    rewrite N.pred_succ, IH; [|exact Ht|lia|lia]. reflexivity.
 Qed.
 
 Lemma dec_lp_items_raw (l : items) (fuel : nat) :
   wf_items TRaw l -> size_items TRaw l < two32 -> (items_cnt l <= fuel)%nat ->
-  dec_lp_items IRaw fuel (items_len l) (flat_items TRaw l) = Ok (l, []).
+  dec_lp_items mk_raw fuel (items_len l) (flat_items TRaw l) = Ok (l, []).
 Proof.
   revert fuel; induction l as [|i t IH]; intros fuel Hw Hs Hfu.
   - destruct fuel; reflexivity.
@@ -147,7 +155,7 @@ Proof.
     rewrite <- !app_assoc. rewrite rd32_le32 by lia. cbn [bind fst snd].
     destruct (len bs <=? len (bs ++ flat_items TRaw t)) eqn:Le.
     2:{ apply N.leb_gt in Le. rewrite len_app in Le. lia. }
-    rewrite dropN_app_exact, takeN_app_exact.
+    rewrite dropN_app_exact, takeN_app_exact. unfold mk_raw at 1.
     rewrite N.pred_succ, IH; [|exact Ht|lia|lia]. reflexivity.
 Qed.
 
@@ -228,7 +236,7 @@ Proof.
   intros Hf Hm Hw Hs.
   assert (Single : forall i, wf_item ft i -> size_single ft i < two32 ->
             dec_field inner ft (flat_single ft i) = Ok (RInline i, [])).
-  { intros i Hi Hsi. unfold dec_field.
+  { intros i Hi Hsi. unfold dec_field. rewrite Hf. cbn [negb].
     assert (En : num_items_in_buffer ft (flat_single ft i) = 1).
     { destruct (ft_fixed ft) eqn:Hx.
       - rewrite num_items_fixed by exact Hx.
@@ -247,7 +255,7 @@ Proof.
   - cbn [wf_repr] in Hw.
     destruct l as [|i [|j t]].
     + (* no items *)
-      cbn [norm_repr norm_items]. unfold dec_field.
+      cbn [norm_repr norm_items]. unfold dec_field. rewrite Hf. cbn [negb].
       destruct (ft_fixed ft) eqn:Hx.
       * assert (E : flat_repr ft (RArray INil) = []) by (destruct ft; try discriminate Hx; reflexivity).
         destruct (size_tables_ok ft Hx) as (_ & Eu & Hp).
@@ -271,7 +279,7 @@ Proof.
       set (l := ICons i (ICons j t)) in *.
       assert (Hn : norm_repr (RArray l) = RArray l).
       { unfold l. cbn [norm_repr]. fold l. f_equal. exact (norm_items_leaf ft l Hm Hf Hw). }
-      rewrite Hn. unfold dec_field.
+      rewrite Hn. unfold dec_field. rewrite Hf. cbn [negb].
       assert (Hc2 : 2 <= items_len l) by (unfold l; cbn [items_len]; lia).
       destruct (ft_fixed ft) eqn:Hx.
       * destruct (size_tables_ok ft Hx) as (_ & Eu & Hp).
@@ -285,7 +293,8 @@ Proof.
           destruct ft; try discriminate Hx; rewrite Eu;
             (destruct (cpp_size _ =? 0) eqn:Ez; [apply N.eqb_eq in Ez; lia|]);
             rewrite El, N.mod_mul by lia; cbn [N.eqb]; rewrite N.div_mul by lia;
-            rewrite items_len_cnt, Nat2N.id, split_fix_flat by (auto; reflexivity); reflexivity. }
+            rewrite items_len_cnt, Nat2N.id, split_fix_flat by (auto; reflexivity);
+            rewrite ?norm_bools_wf by exact Hw; reflexivity. }
         rewrite Ea. reflexivity.
       * destruct ft; try discriminate Hf; try discriminate Hx; try congruence.
         -- (* String *)
@@ -293,10 +302,14 @@ Proof.
            cbn [flat_repr]. rewrite num_items_count by (try lia; auto).
            destruct (items_len l =? 1) eqn:E1; [apply N.eqb_eq in E1; lia|].
            unfold dec_array. rewrite rd32_le32 by lia. cbn [bind fst snd].
-           rewrite dec_lp_items_str; [reflexivity|exact Hw|lia|].
-           rewrite app_length.
            pose proof (proj1 (proj2 flatten_length_all) l TString Hf Hw) as HL.
-           unfold items_flat_len in HL. cbn [ft_fixed] in HL. rewrite len_length, items_len_cnt in HL. lia.
+           unfold items_flat_len in HL. cbn [ft_fixed] in HL.
+           rewrite sizeof_u32.
+           destruct (len (flat_items TString l) / 4 <? items_len l) eqn:Eb.
+           { apply N.ltb_lt in Eb.
+             assert (items_len l <= len (flat_items TString l) / 4) by (apply N.div_le_lower_bound; lia). lia. }
+           rewrite dec_lp_items_str; [reflexivity|exact Hw|lia|].
+           rewrite app_length. rewrite len_length, items_len_cnt in HL. lia.
         -- (* raw *)
            cbn [size_repr] in Hs. rewrite sizeof_u32 in Hs.
            pose proof (raw_items_lower l Hw) as Hlow.
@@ -396,7 +409,7 @@ Proof.
     cbn [RT_item] in IHi. cbn [fo_repr fo_item] in Hfo. cbn [depth_repr depth_item] in Hd.
     cbn [size_repr size_single] in Hs. rewrite sizeof_u32 in Hs.
     pose proof (proj2 (proj2 (proj2 (proj2 flatten_length_all))) m Hw) as Hl.
-    unfold dec_field. cbn [flat_repr].
+    unfold dec_field. cbn [flat_repr ft_flattenable negb].
     assert (En : num_items_in_buffer TMessage (flat_single TMessage (IMsg m)) = 1).
     { cbn [flat_single]. rewrite <- (app_nil_r (flat_msg m)). rewrite num_items_msg by (try lia; auto). reflexivity. }
     rewrite En, N.eqb_refl.
@@ -414,7 +427,7 @@ Proof.
       cbn [size_items size_elem] in Hs. rewrite sizeof_u32 in Hs.
       pose proof (proj2 (proj2 (proj2 (proj2 flatten_length_all))) m Hwi) as Hl.
       rewrite flat_repr_singleton by (auto; exact Hwi).
-      unfold dec_field.
+      unfold dec_field. cbn [ft_flattenable negb].
       assert (En : num_items_in_buffer TMessage (flat_single TMessage (IMsg m)) = 1).
       { cbn [flat_single]. rewrite <- (app_nil_r (flat_msg m)). rewrite num_items_msg by (try lia; auto). reflexivity. }
       rewrite En, N.eqb_refl.
@@ -422,7 +435,7 @@ Proof.
     + (* two or more sub-Messages *)
       set (l := ICons i (ICons j t)) in *.
       assert (Hn : norm_repr (RArray l) = RArray (norm_items l)) by reflexivity.
-      rewrite Hn. unfold dec_field. cbn [flat_repr].
+      rewrite Hn. unfold dec_field. cbn [flat_repr ft_flattenable negb].
       assert (En : num_items_in_buffer TMessage (flat_items TMessage l) = 2).
       { unfold l. destruct Hw as (Hwi & Hwj & _).
         destruct i as [bs|bs|bs|m|id]; cbn [wf_item] in Hwi; try contradiction.
